@@ -60,7 +60,7 @@ claim("C12",
       "DESIGN.md §6 C12")
 claim("C19",
       "Proof that what Create/Update put into the store is a fresh deep copy (never the caller's object), that Get returns a fresh deep copy, that the written-back "
-      "metadata equals the stored one, and that the copy-on-write containers (Finalizers.Add/Remove/Set, kv.KV.Set/Delete) never write the array or map they were "
+      "metadata equals the stored one, and that the copy-on-write containers (Finalizers.Add/Remove/Set, kv.KV.Set/Delete and the temporary view behind kv.KV.Do) never write the array or map they were "
       "handed and put every change into a fresh one.",
       COMMON + "DeepCopy contract assumed for resource implementations; List, watch bootstrap and the runtime cache are not under contract yet.",
       "DESIGN.md §6 C19")
@@ -128,7 +128,7 @@ claim("C17",
       "DESIGN.md §6 C17")
 claim("C13",
       "Proof for the client-side watch adapter: its receive closure re-establishes a watch only when retries are enabled and a bookmark has been seen, always with "
-      "StartFromBookmark equal to the remembered bookmark and with BootstrapContents, BootstrapBookmark and TailEvents cleared (call-site assertions at the Watch "
+      "StartFromBookmark equal to the remembered bookmark, with BootstrapContents, BootstrapBookmark and TailEvents cleared and with the selection of the original request (namespace, type, ID, ID query, label query, aggregation) unchanged (call-site assertions at the Watch "
       "call inside the retry loop, loop invariant over the retry state), returns a message only when one was received; the delivery loop keeps the remembered "
       "bookmark equal to the bookmark of the last event converted (loop invariant) and is panic-free for every decoded message.",
       COMMON + "Environment assumptions (listed as assume_result clauses): a context whose Done channel fired reports a non-nil error; decoded WatchResponse messages "
